@@ -7,6 +7,9 @@ import Xp.Proofs.C10Apply
 import Xp.Proofs.C10Compose
 import Xp.Model.C10World
 import Xp.Proofs.C10World
+import Xp.Model.C10Skel
+import Xp.Proofs.C10Str
+import Xp.Gen.C10Skel
 /-
 C10 property theorems: Patch & Transform rendering is total, deterministic and never applies a
 half-rendered resource. Statements only; helper lemmas are in Xp/Proofs/C10*.lean.
@@ -933,6 +936,165 @@ theorem inline_undefined_is_error (xr : V) (sets : List PatchSet) (tpls : List T
       exact key _ (List.mem_map.mpr ⟨t, ht, rfl⟩)
     · rfl
   simp [stepW, hnone]
+
+/-! ### transforms agree with their documented meaning: computed string and integer transforms
+
+These functions used to be oracle entries (the library's answer shipped by the harness); they are now
+computed by the model – and compared with the real code on every scenario –, so their documented
+meaning is a theorem about the function the correspondence ties to the code. -/
+
+/-- "Multiply the value": on int64 the product wraps around exactly like Go's `i * *t.Multiply` – the
+result always fits int64, is congruent to the true product modulo 2^64 and IS the true product
+whenever that fits. An empty type means Multiply (MathTransform.GetType). -/
+theorem multiply_int_wraps (o : Orc) (m : MathCfg) (k i : Int) (ht : m.type = "Multiply" ∨ m.type = "")
+    (hm : m.multiply = some k) :
+    resolveMath o m (.num i) = .ok (.num (wrap64 (i * k))) ∧ fits64 (wrap64 (i * k)) = true ∧
+      (wrap64 (i * k) - i * k) % 2 ^ 64 = 0 ∧ (fits64 (i * k) = true → wrap64 (i * k) = i * k) := by
+  refine ⟨?_, wrap64_fits _, wrap64_congr _, wrap64_id _⟩
+  rcases ht with ht | ht <;>
+  · simp only [resolveMath, MathCfg.valid, MathCfg.getType, ht, hm]
+    simp
+
+example := multiply_int_wraps .null ⟨"", some 4, none, none⟩ 4 4611686018427387904 (Or.inr rfl) rfl
+example : wrap64 (4611686018427387904 * 4) = 0 ∧ wrap64 (9223372036854775807 * 2) = -2 := by decide
+
+/-- "TrimPrefix: trims the prefix from the input": an input that starts with the prefix loses exactly it. -/
+theorem trim_prefix_removes (pre s : List Char) :
+    trimPrefix (String.ofList (pre ++ s)) (String.ofList pre) = String.ofList s := by
+  simp [trimPrefix]
+
+/-- … and an input that does not start with it is returned unchanged (no cut-set semantics). -/
+theorem trim_prefix_other (s pre : String) (h : pre.toList.isPrefixOf s.toList = false) : trimPrefix s pre = s := by
+  simp [trimPrefix, h]
+
+/-- "TrimSuffix: trims the suffix from the input". -/
+theorem trim_suffix_removes (s suf : List Char) :
+    trimSuffix (String.ofList (s ++ suf)) (String.ofList suf) = String.ofList s := by
+  simp [trimSuffix]
+
+theorem trim_suffix_other (s suf : String) (h : suf.toList.reverse.isPrefixOf s.toList.reverse = false) :
+    trimSuffix s suf = s := by
+  simp [trimSuffix, h]
+
+example : trimPrefix "aab" "a" = "ab" ∧ trimPrefix "xab" "a" = "xab" ∧ trimSuffix "abb" "b" = "ab" := by decide
+example : ("a".toList.isPrefixOf "xab".toList) = false := by decide
+
+/-- The string Format transform with the plain verbs: `%s` of a string is the string, `%d` of an
+integer its decimal text (strconv.FormatInt), whatever the oracle says. -/
+theorem format_plain_verbs (o : Orc) (s : String) (i : Int) :
+    fmtStr o "%s" (.str s) = .ok s ∧ fmtStr o "%d" (.num i) = .ok (fmtInt i) ∧ fmtStr o "%v" .null = .ok "<nil>" := by
+  simp [fmtStr, sprintfLite]
+
+/-- A format without verbs and without operands is printed as it is. -/
+theorem sprintf_literal (cs : List Char) (h : '%' ∉ cs) : sprintfLite cs [] = some cs :=
+  sprintfLite_literal cs h
+
+/-- Purity: on the computed fragment the result of the Format transform does not depend on anything
+but the format and the input (no oracle, no earlier call). -/
+theorem format_computed_ignores_oracle (o1 o2 : Orc) (f : String) (x : V) (cs : List Char)
+    (h : sprintfLite f.toList [x] = some cs) : fmtStr o1 f x = fmtStr o2 f x := by
+  simp [fmtStr, h]
+
+example : sprintfLite "pre-%s".toList [.str "x"] = some "pre-x".toList := by decide
+
+/-- A combine patch with the string strategy and the format `%s-%s` over two string variables
+yields the two values joined by a dash. -/
+theorem combine_two_strings (c : Combine) (a b : String) (hs : c.strategy = "string") (hf : c.fmt = some "%s-%s") :
+    combineVals c [.str a, .str b] = .ok (.str (a ++ "-" ++ b)) := by
+  simp [combineVals, hs, hf, sprintfLite]
+  apply String.ext
+  simp
+
+example := combine_two_strings ⟨[], "string", some "%s-%s", .null⟩ "eu" "1" rfl rfl
+
+/-- ToUpper / ToLower on ASCII text are computed (no oracle): the letters a–z / A–Z are shifted,
+everything else is kept. -/
+theorem upper_lower_ascii (o : Orc) (s : String) (h : isAsciiStr s = true) :
+    stringConvert o "ToUpper" (.str s) = .ok (asciiUpper s) ∧ stringConvert o "ToLower" (.str s) = .ok (asciiLower s) := by
+  simp [stringConvert, upperOf, lowerOf, fmtV, h]
+
+/-- case mapping keeps the length … -/
+theorem ascii_upper_length (s : String) : (asciiUpper s).toList.length = s.toList.length := by
+  simp [asciiUpper]
+
+/-- … and lower-casing forgets an earlier upper-casing (ToLower ∘ ToUpper = ToLower on ASCII text). -/
+theorem lower_of_upper (s : String) (h : isAsciiStr s = true) : asciiLower (asciiUpper s) = asciiLower s := by
+  unfold asciiLower asciiUpper
+  congr 1
+  simp only [String.toList_ofList, List.map_map]
+  apply List.map_congr_left
+  intro c hc
+  have hlt : c.toNat < 128 := by
+    have := List.all_eq_true.mp h c hc
+    simpa using this
+  simpa using lower_upper_ascii c hlt
+
+example : isAsciiStr "aZ-9 z{`" = true ∧ asciiUpper "aZ-9 z{`" = "AZ-9 Z{`" ∧ asciiLower "aZ-9 Z[@" = "az-9 z[@" := by decide
+
+/-! ### regenerated facts (tie "a"): the modelled Go functions still have the skeleton the model was written against
+
+`Xp.Gen.c10Skel…` is extracted from the CURRENT tree by harness/main/c10_dump.go on every run (case
+labels, if-conditions, ranges, calls, and the returns of the small predicate/arithmetic functions and
+of the `conversions` table, in source order); `skel…` (Model/C10Skel.lean) is what the model mirrors,
+entry by entry. -/
+
+theorem skeleton_apply : Xp.Gen.c10SkelApply = skelApply := by decide
+theorem skeleton_apply_to_objects : Xp.Gen.c10SkelApplyToObjects = skelApplyToObjects := by decide
+theorem skeleton_filter_patch : Xp.Gen.c10SkelFilterPatch = skelFilterPatch := by decide
+theorem skeleton_resolve_transforms : Xp.Gen.c10SkelResolveTransforms = skelResolveTransforms := by decide
+theorem skeleton_patch_to_multiple : Xp.Gen.c10SkelPatchToMultiple = skelPatchToMultiple := by decide
+theorem skeleton_apply_from_field_path : Xp.Gen.c10SkelApplyFromFieldPath = skelApplyFromFieldPath := by decide
+theorem skeleton_apply_combine : Xp.Gen.c10SkelApplyCombine = skelApplyCombine := by decide
+theorem skeleton_is_optional : Xp.Gen.c10SkelIsOptional = skelIsOptional := by decide
+theorem skeleton_combine : Xp.Gen.c10SkelCombine = skelCombine := by decide
+theorem skeleton_combine_string : Xp.Gen.c10SkelCombineString = skelCombineString := by decide
+theorem skeleton_composed_templates : Xp.Gen.c10SkelComposedTemplates = skelComposedTemplates := by decide
+theorem skeleton_merge_path : Xp.Gen.c10SkelMergePath = skelMergePath := by decide
+theorem skeleton_merge_replace : Xp.Gen.c10SkelMergeReplace = skelMergeReplace := by decide
+theorem skeleton_with_merge_options : Xp.Gen.c10SkelWithMergeOptions = skelWithMergeOptions := by decide
+theorem skeleton_merge_options : Xp.Gen.c10SkelMergeOptions = skelMergeOptions := by decide
+theorem skeleton_patch_to_object : Xp.Gen.c10SkelPatchToObject = skelPatchToObject := by decide
+theorem skeleton_resolve : Xp.Gen.c10SkelResolve = skelResolve := by decide
+theorem skeleton_resolve_math : Xp.Gen.c10SkelResolveMath = skelResolveMath := by decide
+theorem skeleton_math_multiply : Xp.Gen.c10SkelMathMultiply = skelMathMultiply := by decide
+theorem skeleton_math_clamp : Xp.Gen.c10SkelMathClamp = skelMathClamp := by decide
+theorem skeleton_resolve_map : Xp.Gen.c10SkelResolveMap = skelResolveMap := by decide
+theorem skeleton_resolve_match : Xp.Gen.c10SkelResolveMatch = skelResolveMatch := by decide
+theorem skeleton_matches : Xp.Gen.c10SkelMatches = skelMatches := by decide
+theorem skeleton_matches_literal : Xp.Gen.c10SkelMatchesLiteral = skelMatchesLiteral := by decide
+theorem skeleton_matches_regexp : Xp.Gen.c10SkelMatchesRegexp = skelMatchesRegexp := by decide
+theorem skeleton_unmarshal_json : Xp.Gen.c10SkelUnmarshalJSON = skelUnmarshalJSON := by decide
+theorem skeleton_resolve_string : Xp.Gen.c10SkelResolveString = skelResolveString := by decide
+theorem skeleton_string_convert : Xp.Gen.c10SkelStringConvert = skelStringConvert := by decide
+theorem skeleton_string_hash : Xp.Gen.c10SkelStringHash = skelStringHash := by decide
+theorem skeleton_string_trim : Xp.Gen.c10SkelStringTrim = skelStringTrim := by decide
+theorem skeleton_string_regexp : Xp.Gen.c10SkelStringRegexp = skelStringRegexp := by decide
+theorem skeleton_string_join : Xp.Gen.c10SkelStringJoin = skelStringJoin := by decide
+theorem skeleton_resolve_convert : Xp.Gen.c10SkelResolveConvert = skelResolveConvert := by decide
+theorem skeleton_get_conversion_func : Xp.Gen.c10SkelGetConversionFunc = skelGetConversionFunc := by decide
+theorem skeleton_render_from_json : Xp.Gen.c10SkelRenderFromJSON = skelRenderFromJSON := by decide
+theorem skeleton_render_from_xr : Xp.Gen.c10SkelRenderFromXR = skelRenderFromXR := by decide
+theorem skeleton_render_to_xr : Xp.Gen.c10SkelRenderToXR = skelRenderToXR := by decide
+theorem skeleton_render_meta : Xp.Gen.c10SkelRenderMeta = skelRenderMeta := by decide
+theorem skeleton_compose : Xp.Gen.c10SkelCompose = skelCompose := by decide
+theorem skeleton_to_xr_patches_from_tas : Xp.Gen.c10SkelToXRPatchesFromTAs = skelToXRPatchesFromTAs := by decide
+theorem skeleton_filter_patches : Xp.Gen.c10SkelFilterPatches = skelFilterPatches := by decide
+theorem skeleton_patch_get_type : Xp.Gen.c10SkelPatchGetType = skelPatchGetType := by decide
+theorem skeleton_math_get_type : Xp.Gen.c10SkelMathGetType = skelMathGetType := by decide
+theorem skeleton_math_validate : Xp.Gen.c10SkelMathValidate = skelMathValidate := by decide
+theorem skeleton_convert_get_format : Xp.Gen.c10SkelConvertGetFormat = skelConvertGetFormat := by decide
+theorem skeleton_convert_validate : Xp.Gen.c10SkelConvertValidate = skelConvertValidate := by decide
+theorem skeleton_io_type_is_valid : Xp.Gen.c10SkelIOTypeIsValid = skelIOTypeIsValid := by decide
+theorem skeleton_format_is_valid : Xp.Gen.c10SkelFormatIsValid = skelFormatIsValid := by decide
+theorem skeleton_conversions : Xp.Gen.c10SkelConversions = skelConversions := by rfl
+
+/-- the string values of the API constants the model's `match`es are written against -/
+theorem consts_tied : Xp.Gen.c10Consts = declaredConsts := by decide
+
+/-- the patch-type filters of the two render loops and of the apply options (composite.go) -/
+theorem patch_type_filters_tied :
+    patchTypesFromXR = Xp.Gen.c10PatchTypesFromXR ∧ patchTypesToXR = Xp.Gen.c10PatchTypesToXR := by decide
+
 
 /-! ### non-vacuity: the hypotheses are satisfiable by non-trivial states -/
 
